@@ -6,6 +6,7 @@ package utils
 import (
 	"fmt"
 	"math"
+	"math/big"
 	"strconv"
 	"testing"
 
@@ -90,6 +91,33 @@ func TestVerifReplayValues(t *testing.T) {
 		got := TypedValueToString(&sdcpb.TypedValue{Value: &sdcpb.TypedValue_IntVal{IntVal: i}})
 		if got != strconv.FormatInt(i, 10) {
 			fmt.Printf("REPLAY-FAIL fn=%s clause=int_decimal input=int64=%d why=rendered %q\n", fnStr, i, got)
+		}
+	}
+	// decimal64: the rendering is digits * 10^-precision in canonical form (independent big-integer oracle), and parses back
+	for _, dg := range []int64{0, 1, -1, 5, -5, 10, -10, 99, -99, 100, -100, 12345, -12345, 1000000, -1000000, math.MaxInt64, math.MinInt64 + 1, math.MinInt64} {
+		for prec := uint32(0); prec <= 18; prec++ {
+			m++
+			got := TypedValueToString(&sdcpb.TypedValue{Value: &sdcpb.TypedValue_DecimalVal{DecimalVal: &sdcpb.Decimal64{Digits: dg, Precision: prec}}})
+			abs := new(big.Int).Abs(big.NewInt(dg)).String()
+			for len(abs) <= int(prec) {
+				abs = "0" + abs
+			}
+			want := abs
+			if prec > 0 {
+				want = abs[:len(abs)-int(prec)] + "." + abs[len(abs)-int(prec):]
+			}
+			if dg < 0 {
+				want = "-" + want
+			}
+			in := fmt.Sprintf("decimal64{digits=%d,precision=%d}", dg, prec)
+			if got != want {
+				fmt.Printf("REPLAY-FAIL fn=%s clause=decimal_canonical input=%s why=rendered %q, the value is %q\n", fnStr, in, got, want)
+				continue
+			}
+			back, err := ParseDecimal64(got)
+			if err != nil || back == nil || back.Digits != dg || back.Precision != prec {
+				fmt.Printf("REPLAY-FAIL fn=%s clause=decimal_round_trip input=%s why=rendered %q parses back to %v (err %v)\n", fnStr, in, got, back, err)
+			}
 		}
 	}
 	fmt.Printf("REPLAY-CASES fn=%s n=%d\n", fnStr, m)
